@@ -6,7 +6,12 @@
 (*           (RefTerm!FrameOK: the emulator received a correct stream);      *)
 (*   emu     the emulator's own grid and cursor (recorded snapshot);         *)
 (*   hframe  the host terminal after the emulator was drawn into a host      *)
-(*           Vaxis of the same size (host bytes through a second RefTerm).   *)
+(*           Vaxis of the same size (host bytes through a second RefTerm);   *)
+(*   hplain  the window of a host that measures text per code point: the     *)
+(*           emulator drawn into it and the cells of the emulator's snapshot *)
+(*           set in the window of a second such host, with their widths,     *)
+(*           make both Vaxis write the same bytes (same = the logged result  *)
+(*           of that comparison; the cells a window holds cannot be read).   *)
 (* And at "ready" the capabilities the application derived from the          *)
 (* emulator's replies must be exactly those the emulator implements (adv),   *)
 (* and a graphics feature among them must take what the application then     *)
@@ -73,6 +78,9 @@ Next ==
         /\ UNCHANGED <<t, th, adv>> /\ cuts' = {}
         /\ IF ScreenOK(th, e.app, e.rgb, e.su) /\ CursorOK(th, e.cur) /\ FlushClean(th) THEN UNCHANGED failed
            ELSE Reject(e, IF ~ScreenOK(th, e.app, e.rgb, e.su) THEN "host-cells" ELSE "host-cursor", FirstBad(th, e))
+     ELSE IF e.ev = "hplain" THEN
+        /\ UNCHANGED <<t, th, adv, cuts>>
+        /\ IF e.same THEN UNCHANGED failed ELSE Reject(e, "host-window-cells", <<>>)
      ELSE IF e.ev = "host" THEN
         /\ th' = Step(th, e.c) /\ UNCHANGED <<t, adv, failed, cuts>>
      ELSE IF e.ev = "panic" THEN
